@@ -177,10 +177,15 @@ fn run_xyz(case: &Case, lines: &[String], st: &mut RunStats) -> Outcome<Case> {
     }
     let scratch = Scratch::new(tag.finish());
     let input = scratch.0.join("in.xyz");
-    let mut text = lines.join("\n");
-    if !lines.is_empty() {
-        text.push('\n');
+    // line ends derived from the content: LF (mostly), CRLF, or no newline behind the last line
+    let style = tag.finish() % 8;
+    let eol = if style == 1 { "\r\n" } else { "\n" };
+    let mut text = lines.join(eol);
+    if !lines.is_empty() && style != 2 {
+        text.push_str(eol);
     }
+    st.probe("xyz_last_line_without_newline", style == 2 && !lines.is_empty());
+    st.probe("xyz_crlf_line_ends", style == 1 && !lines.is_empty());
     std::fs::write(&input, &text).expect("write xyz");
     let t1 = run_tool("e57-from-xyz", &input);
     if t1.code != Some(0) {
@@ -423,7 +428,7 @@ impl Prop for C20 {
     fn meta(&self) -> Meta {
         Meta {
             level: "exploration",
-            rule: "process-level pipelines in a private /dev/shm directory with the five tool binaries built from the workspace (no verification cfg). Even indices: seeded XYZ text (0-400 lines; finite f32 coordinates incl. +-0, +-MAX, MIN_POSITIVE, subnormals, random bit patterns, written in three lexical forms; all 8-bit colours biased to 0/1/254/255; extra columns; short and blank lines) -> e57-from-xyz -> [every fourth run: bit flip or truncation of the E57 file] -> e57-check-crc, e57-to-xyz. Odd indices: E57 file from the C01 writer / C03 producer generators, intact or damaged -> e57-check-crc, e57-extract-xml, e57-unpack. Oracle: kept XYZ lines come back in order with identical f32 coordinates and identical colours; e57-check-crc exits 0 iff refcodec finds every page CRC valid; e57-extract-xml stdout = E57Reader::raw_xml; e57-unpack's metadata.xml, pc_i.csv and image files = xml(), raw values in the same text form, blob bytes the library returns; on damaged input a tool exits non-zero (and then a library read fails too) or emits exactly that. Distinct = hash(pipeline kind, sizes, damage, first values); non-trivial = at least one point or file processed".into(),
+            rule: "process-level pipelines in a private /dev/shm directory with the five tool binaries built from the workspace (no verification cfg). Even indices: seeded XYZ text (0-400 lines; finite f32 coordinates incl. +-0, +-MAX, MIN_POSITIVE, subnormals, random bit patterns, written in three lexical forms; all 8-bit colours biased to 0/1/254/255; extra columns; short and blank lines; LF or CRLF line ends, last line with or without newline) -> e57-from-xyz -> [every fourth run: bit flip or truncation of the E57 file] -> e57-check-crc, e57-to-xyz. Odd indices: E57 file from the C01 writer / C03 producer generators, intact or damaged -> e57-check-crc, e57-extract-xml, e57-unpack. Oracle: kept XYZ lines come back in order with identical f32 coordinates and identical colours; e57-check-crc exits 0 iff refcodec finds every page CRC valid; e57-extract-xml stdout = E57Reader::raw_xml; e57-unpack's metadata.xml, pc_i.csv and image files = xml(), raw values in the same text form, blob bytes the library returns; on damaged input a tool exits non-zero (and then a library read fails too) or emits exactly that. Distinct = hash(pipeline kind, sizes, damage, first values); non-trivial = at least one point or file processed".into(),
             assumptions: vec![
                 "XYZ columns are separated by single spaces (the tool's documented input form)".into(),
                 "random GUIDs of e57-from-xyz are outside what the property observes".into(),
